@@ -56,6 +56,8 @@ def write(prop, tier, seed, mod, results, all_viol, wall, partial, n_viol, n_kno
             "discharged": t.discharged,
             "violations": len(t.violations),
             "inconclusive_paths": t.inconclusive,
+            "outside_claim_paths": getattr(t, "outside", 0),
+            "outside_claim_reasons": getattr(t, "outside_reasons", {}),
             "truncated": t.truncated,
             "solver": {k: (round(v, 3) if isinstance(v, float) else v) for k, v in t.stats.items()},
             "wall_s": round(getattr(t, "wall_s", 0.0), 2),
